@@ -64,6 +64,7 @@ type c02Case struct {
 	RefineUse     int    `json:"refine_use,omitempty"`
 	RefineDefault string `json:"refine_default,omitempty"`
 	refinedHere   bool
+	useIndex      int // which use of the grouping is being looked at
 	// InCase: leaf x is written inside 'choice xch { case xk { ... } }' (a relative leafref path then leaves the case);
 	// Mandatory: leaf x states mandatory true (and no default of its own): it has no default then, whatever its typedefs say
 	InCase    bool `json:"in_case,omitempty"`
@@ -263,7 +264,8 @@ func c02Gen(t *rapid.T) c02Case {
 		c02Defaults(t, &c, func(i int) string { return fmt.Sprint(i) })
 	case c.Base == "leafref":
 		c.Target = rapid.SampledFrom([]string{"int32", "string", "boolean", "enumeration", "um"}).Draw(t, "target")
-		paths := []string{"/tgt", "/m:tgt", "../sib", "../m:sib", "../../sib0", "/m:outer/m:sib0", "/outer/sib0", "/i:itgt", "/i:ic/i:deep"}
+		// "../per": a leaf next to x (next to the uses, outside the grouping) whose type differs from use to use
+		paths := []string{"/tgt", "/m:tgt", "../sib", "../m:sib", "../../sib0", "/m:outer/m:sib0", "/outer/sib0", "/i:itgt", "/i:ic/i:deep", "../per", "../per"}
 		c.Path = rapid.SampledFrom(paths).Draw(t, "path")
 		switch c.Path {
 		case "/i:itgt":
@@ -470,6 +472,9 @@ func (c c02Case) identities(mod, ind string) string {
 	return b.String()
 }
 
+// the type of leaf "per" in the first, second and third container the grouping is used in
+var c02PerUseTypes = []string{"uint8", "string", "boolean"}
+
 func (c c02Case) targetType() string {
 	switch c.Target {
 	case "enumeration":
@@ -544,6 +549,9 @@ func (c c02Case) files() map[string]string {
 			name = fmt.Sprintf("inner%d", u+1)
 		}
 		fmt.Fprintf(&m, "  container %s {\n", name)
+		if c.Path == "../per" {
+			fmt.Fprintf(&m, "   leaf per {\n    type %s;\n   }\n", c02PerUseTypes[u%len(c02PerUseTypes)])
+		}
 		if c.Grouping && c.RefineUse == u+1 {
 			fmt.Fprintf(&m, "   uses g {\n    refine x {\n     default %q;\n    }\n   }\n", c.RefineDefault)
 		} else if c.Grouping {
@@ -790,6 +798,7 @@ func c02Run(c c02Case, o *hx.Obs) {
 			o.Failf("type|"+kind+"|"+clause+"|"+which, "outer/%s/x: %s\n%s", name, fmt.Sprintf(f, a...), show())
 		}
 		cu := c
+		cu.useIndex = u
 		cu.refinedHere = c.RefineUse == u+1
 		if cu.refinedHere {
 			o.Class("a use refines the default")
@@ -963,6 +972,9 @@ func c02CheckLeaf(c c02Case, leaf meta.Leafable, fail func(clause, f string, a .
 			return
 		}
 		tt := c.Target
+		if c.Path == "../per" {
+			tt = c02PerUseTypes[c.useIndex%len(c02PerUseTypes)]
+		}
 		if tt == "um" {
 			tt = "int8"
 		}
